@@ -48,13 +48,13 @@ CLAIMS = {
               "inside the year guard: every valid result shows the searched local time under the forward lookup, no such instant of the i64 "
               "range is missing, valid results strictly increase; and as one set equality, valid results = Spec.validSet, the executable spec "
               "the oracle runs (valid_results_are_the_spec_set). False without the hypotheses: known findings F1, F2, F5 (proved "
-              "counterexample_F2, counterexample_F5). " + _K + "find family incl. junction zones (last table transition = a rule instant).",
-              "Lean 4 proof (partial) + spec-oracle differential + known findings"),
+              "counterexample_F2, counterexample_F5). " + _S + _K + "find family incl. junction zones (last table transition = a rule instant).",
+              "Lean 4 proof (partial) + source translated to Lean and proved equal to the model + spec-oracle differential + known findings"),
     "C06": _c("Proved (same partial scope as C05, rule zones included): a reported gap is a real one with the transition instant on both clocks, every gap "
               "containing the local time is reported, exactly once, all results ascending; unique/earliest/latest characterised; and as one set equality, reported gaps = Spec.gapSet, the "
-              "executable spec the oracle runs (reported_gaps_are_the_spec_set). " + _K +
+              "executable spec the oracle runs (reported_gaps_are_the_spec_set). " + _S + _K +
               "find family; Spec oracle gapSet for rule zones.",
-              "Lean 4 proof (partial) + spec-oracle differential + known finding"),
+              "Lean 4 proof (partial) + source translated to Lean and proved equal to the model + spec-oracle differential + known finding"),
     "C07": _c("PARTIAL. Proved on the model: every modelled function is total; 13 obligations that the unchecked arithmetic / casts / indexes / "
               "unreachable! arms / with_capacity requests of the modelled functions cannot fail for inputs of the argument types; and the "
               "regenerated per-file inventory of such sites equals the one the obligations were written against (decide). Exercised, not "
@@ -111,9 +111,9 @@ CLAIMS = {
               "utctn/dttn/dtfromtn families at multiples of 1e9 ± 1, range ends, i128 extremes, negative totals around transitions.",
               "Lean 4 proof + source translated to Lean and proved equal to the model + differential correspondence"),
     "C17": _c("Proved for ANY buffer and ANY pushed sequence: final buffer = first min(n,k) results then the untouched tail, count = k, exhaustive iff "
-              "n ≥ k, accessors agree when exhaustive, both entry points run the same search. " + _K +
+              "n ≥ k, accessors agree when exhaustive, both entry points run the same search. " + _S + _K +
               "findn family: every n in 0..k+2 with stale-filled buffers; oracle compares find_n with find on the implementation itself.",
-              "Lean 4 proof (induction over the pushed sequence) + differential correspondence"),
+              "Lean 4 proof (induction over the pushed sequence) + search translated to Lean and proved equal to the model + differential correspondence"),
     "C18": _c("Proved: an independent strict reader recovers exactly year, fields, nanoseconds and offset from the rendering for every year in i32 "
               "and offset in i32 \\ {MIN}; 'Z' iff offset 0; fixed widths. core::fmt padding is modelled (tied by the fmt family). " + _K,
               "Lean 4 proof (round trip through an independent reader) + differential correspondence"),
